@@ -72,6 +72,48 @@ fn nb_eq(a: &Content, b: &Content) -> Option<String> {
     None
 }
 
+/// text-level predicate of C06_accept_iff: some line (a line ends at '\n' and at '\r') starts
+/// with a run of name characters (first: ASCII graphic except '-', ':', '#'; then ASCII graphic
+/// except ':') immediately followed by a space or a tab
+pub fn blank_after_key(text: &str) -> bool {
+    text.split(|c| c == '\n' || c == '\r').any(|line| {
+        let mut cs = line.chars();
+        match cs.next() {
+            Some(c) if c.is_ascii_graphic() && c != '-' && c != ':' && c != '#' => {}
+            _ => return false,
+        }
+        for c in cs {
+            if c == ' ' || c == '\t' {
+                return true;
+            }
+            if !c.is_ascii_graphic() || c == ':' {
+                return false;
+            }
+        }
+        false
+    })
+}
+
+/// C06_normal: `lossy` and `strict` have the same paragraphs and names, and each lossless value is
+/// the lossy value split at '\n', empty pieces removed, joined with '\n'
+fn normal_form(lossy: &Content, strict: &Content) -> Option<String> {
+    if lossy.len() != strict.len() {
+        return Some(format!("paragraph count {} (lossy) vs {} (lossless)", lossy.len(), strict.len()));
+    }
+    for (i, (pl, ps)) in lossy.iter().zip(strict).enumerate() {
+        if pl.iter().map(|f| &f.0).collect::<Vec<_>>() != ps.iter().map(|f| &f.0).collect::<Vec<_>>() {
+            return Some(format!("field names of paragraph {} differ", i));
+        }
+        for (fl, fs) in pl.iter().zip(ps) {
+            let want = nb(&fl.1).join("\n");
+            if fs.1 != want {
+                return Some(format!("lossless value of {:?} is {:?}, lossy value without empty lines is {:?}", fl.0, fs.1, want));
+            }
+        }
+    }
+    None
+}
+
 pub fn dec_para(f: &str) -> Option<Vec<(String, String)>> {
     if f.is_empty() {
         return Some(vec![]);
@@ -154,8 +196,32 @@ pub fn handle(op: &str, a: &[&str]) -> Option<Resp> {
             let l = lossy::Deb822::from_str(&s);
             let (sv, sc) = strict_content(&s);
             let mut fail = None;
+            // containment (C06_lossy_imp_strict): what the lossy reader accepts, the lossless
+            // reader accepts
+            if l.is_ok() && sc.is_none() {
+                fail = Some("accepted by the lossy reader but rejected by the lossless reader".to_string());
+            }
+            // acceptance iff (C06_accept_iff): a text of the lossless reader is rejected by the
+            // lossy reader exactly when it has a blank between a field name and its colon
+            if fail.is_none() && sc.is_some() {
+                let bak = blank_after_key(&s);
+                if l.is_err() != bak {
+                    fail = Some(format!(
+                        "lossless accepts, lossy {} but blank between a name and its colon = {}",
+                        if l.is_ok() { "accepts" } else { "rejects" },
+                        bak
+                    ));
+                }
+            }
             if let (Ok(ld), Some(sc)) = (&l, &sc) {
-                fail = nb_eq(&lossy_content(ld), sc).map(|w| format!("readers disagree: {}", w));
+                // normal form (C06_normal): same paragraphs, same names in order, and the lossless
+                // value is the lossy value without its empty lines
+                if fail.is_none() {
+                    fail = normal_form(&lossy_content(ld), sc).map(|w| format!("normal form: {}", w));
+                }
+                if fail.is_none() {
+                    fail = nb_eq(&lossy_content(ld), sc).map(|w| format!("readers disagree: {}", w));
+                }
             }
             // the lossy reader's other front end: `from_reader` over the same bytes, whole and
             // through short reads (1 and 3 bytes per call: a multi-byte character then lies across
@@ -390,6 +456,75 @@ pub fn generate_c08(tier: &str, seed: u64, out: &mut Out) {
     }
 }
 
+const LNAMES: [&str; 6] = ["A", "B", "Source", "X-Y", "A", "b"];
+const LWORDS: [&str; 6] = ["v", "1.0-1", "x: y", "a b", "#n", "é"];
+
+/// a lenient document: 1-3 paragraphs of 1-3 fields from the line kinds field (`K: v`, `K:v`,
+/// `K:`, `K:\tv `), spaced-colon field (`K : v`, `K\t:v`, lossless reader only), continuation,
+/// white-space-only continuation, indented comment, top-level comment, blank line; final newline
+/// present or absent
+pub fn lenient_doc(rng: &mut Rng) -> String {
+    let mut lines: Vec<String> = vec![];
+    let lead = rng.below(10);
+    if lead == 0 {
+        lines.push(String::new());
+    } else if lead == 1 {
+        lines.push("#c".to_string());
+    }
+    let np = 1 + rng.below(3);
+    for p in 0..np {
+        if p > 0 {
+            lines.push(String::new());
+            if rng.chance(15) {
+                lines.push(String::new());
+            }
+            if rng.chance(15) {
+                lines.push("#c".to_string());
+            }
+        }
+        let nf = 1 + rng.below(3);
+        for _ in 0..nf {
+            let k = *rng.pick(&LNAMES);
+            let v = *rng.pick(&LWORDS);
+            let first = if rng.chance(12) {
+                match rng.below(4) {
+                    0 => format!("{} : {}", k, v),
+                    1 => format!("{}\t:{}", k, v),
+                    2 => format!("{} :", k),
+                    _ => format!("{} \t : {}", k, v),
+                }
+            } else {
+                match rng.below(5) {
+                    0 | 1 => format!("{}: {}", k, v),
+                    2 => format!("{}:{}", k, v),
+                    3 => format!("{}:", k),
+                    _ => format!("{}:\t{} ", k, v),
+                }
+            };
+            lines.push(first);
+            let extra = rng.below(4);
+            for _ in 0..extra {
+                let l = match rng.below(12) {
+                    0..=4 => format!(" {}", rng.pick(&LWORDS)),
+                    5 => format!("\t{} ", rng.pick(&LWORDS)),
+                    6 => " ".to_string(),
+                    7 => (*rng.pick(&["\t", "  "])).to_string(),
+                    8 => " #c".to_string(),
+                    9 => "  # c".to_string(),
+                    10 => "#c".to_string(),
+                    _ => " .".to_string(),
+                };
+                lines.push(l);
+            }
+        }
+    }
+    let mut t = lines.join("\n");
+    if rng.chance(75) {
+        t.push('\n');
+    }
+    t
+}
+
 pub fn generate_c06(tier: &str, seed: u64, out: &mut Out) {
     for t in gen_texts(tier, seed) {
         out.req("deb.both", &[es(&t)]);
@@ -398,6 +533,17 @@ pub fn generate_c06(tier: &str, seed: u64, out: &mut Out) {
         out.req("deb.both", &[es(&t)]);
     }
     let thorough = tier == "thorough";
+    // lenient documents (what either reader tolerates beyond the well-formed documents of
+    // `deb.docl`), each also with "\r\n" and with "\r" for every "\n": no expectation of their
+    // own, model = code and the clauses of `deb.both`
+    let mut lrng = Rng::new(seed ^ 0xC06_1E);
+    let nl = if thorough { 200_000 } else { 1_500 };
+    for _ in 0..nl {
+        let t = lenient_doc(&mut lrng);
+        out.req("deb.both", &[es(&t)]);
+        out.req("deb.both", &[es(&t.replace('\n', "\r\n"))]);
+        out.req("deb.both", &[es(&t.replace('\n', "\r"))]);
+    }
     let mut rng = Rng::new(seed ^ 0xC06);
     let n = if thorough { 1_500_000 } else { 20_000 };
     for _ in 0..n {
